@@ -577,7 +577,8 @@ func GenRecords(t *rapid.T, m *Model, n int, fill KeyFill, ordinal int) *Records
 				}
 				// NOT NULL byte columns get non-empty values: a nil slice is NULL, and gorm writes an empty
 				// slice of a named byte-slice type as (NULL) too (statement.AddVar treats it as an empty list)
-				if l.Spec.NotNull && l.Kind.Canon(v) == Null || (l.Spec.NotNull && l.Kind.Family == FBytes && v.Kind() == reflect.Slice && v.Len() == 0) {
+				nn := l.Spec.NotNull || l.Spec.ValuesNotNull
+				if nn && l.Kind.Canon(v) == Null || (nn && l.Kind.Family == FBytes && v.Kind() == reflect.Slice && v.Len() == 0) {
 					if l.Kind.distinct != nil {
 						v = l.Kind.Distinct(1 + ord)
 					} else {
